@@ -132,16 +132,26 @@ class Interp:
                 raise TranslateError("tuple() of non-sequence")
             if isinstance(f, ast.Name) and f.id == "is_single_qubit_gate_name" and len(node.args) == 1:
                 return self.ev(node.args[0]) in self.single
-            if isinstance(f, ast.Subscript) and isinstance(f.value, ast.Name) and f.value.id in self.tables:
-                key = self.ev(f.slice)
-                if key not in self.tables[f.value.id]:
-                    raise TranslateError(f"KeyError {key} in {f.value.id}")
-                out_name = self.tables[f.value.id][key]
+            direct = isinstance(f, ast.Attribute) and isinstance(f.value, ast.Name) and f.value.id == "gates" and f.attr in KINDS
+            if direct or (isinstance(f, ast.Subscript) and isinstance(f.value, ast.Name) and f.value.id in self.tables):
+                if direct:  # gates.X(*target_indices, angle, ...)
+                    out_name = f.attr
+                else:
+                    key = self.ev(f.slice)
+                    if key not in self.tables[f.value.id]:
+                        raise TranslateError(f"KeyError {key} in {f.value.id}")
+                    out_name = self.tables[f.value.id][key]
+                if node.keywords:
+                    raise TranslateError("factory call with keyword arguments")
                 args = []
                 saw_targets = False
                 for a in node.args:
                     if not isinstance(a, ast.Starred):
-                        raise TranslateError("factory call must use starred arguments")
+                        v = self.ev(a)
+                        if not (saw_targets and isinstance(v, Affine)):
+                            raise TranslateError("a plain factory argument must be an angle after the target indices")
+                        args.append(v)
+                        continue
                     v = self.ev(a.value)
                     if isinstance(v, Targets):
                         if saw_targets or args:
